@@ -17,6 +17,67 @@ def _val(env, op):
         return op["int"]
     if op["k"] in ("copy", "move") and not op["place"]["p"]:
         return env.get(op["place"]["l"])
+    if op["k"] in ("copy", "move") and len(op["place"]["p"]) == 1 and op["place"]["p"][0]["k"] == "deref":
+        return env.get(("*", op["place"]["l"]))
+    return None
+
+
+def predicate_table(body, param_local, deref=True):
+    """for a bool-returning function of one byte (passed by reference when deref): {True: [bytes], False: [bytes], None: [bytes]}"""
+    r = {}
+    for v in range(256):
+        env0 = {("*", param_local): v} if deref else {param_local: v}
+        res = _run_to_return(body, env0)
+        r.setdefault(res, []).append(v)
+    return r
+
+
+def _run_to_return(body, env0, max_steps=200):
+    bb, env = 0, dict(env0)
+    for _ in range(max_steps):
+        blk = body.blocks[bb]
+        for s in blk["stmts"]:
+            if s["k"] != "assign" or s["place"]["p"]:
+                continue
+            rv = s["rv"]
+            val = None
+            if rv["k"] in ("use", "cast"):
+                val = _val(env, rv["op"])
+            elif rv["k"] == "bin":
+                a, b_ = _val(env, rv["a"]), _val(env, rv["b"])
+                if a is not None and b_ is not None and rv["op"] in CMP:
+                    val = int(CMP[rv["op"]](a, b_))
+            elif rv["k"] == "un" and rv["op"] == "Not":
+                a = _val(env, rv["a"])
+                val = None if a is None else int(not a)
+            elif rv["k"] == "ref" and len(rv["place"]["p"]) == 1 and rv["place"]["p"][0]["k"] == "deref":
+                # reborrow of a reference: keep the pointee value
+                v = env.get(("*", rv["place"]["l"]))
+                if v is not None:
+                    env[("*", s["place"]["l"])] = v
+                continue
+            if val is None:
+                env.pop(s["place"]["l"], None)
+            else:
+                env[s["place"]["l"]] = val
+        t = blk["term"]
+        if t is None:
+            return None
+        if t["k"] == "return":
+            return env.get(0)
+        if t["k"] in ("goto", "drop", "assert"):
+            bb = t["target"]
+        elif t["k"] == "switch":
+            d = _val(env, t["discr"])
+            if d is None:
+                return None
+            tgt = t["otherwise"]
+            for val, b2 in t["arms"]:
+                if val == d:
+                    tgt = b2
+            bb = tgt
+        else:
+            return None
     return None
 
 
